@@ -19,6 +19,7 @@ import (
 	"os"
 	"os/exec"
 	"path/filepath"
+	"regexp"
 	"runtime/debug"
 	"sort"
 	"strconv"
@@ -572,9 +573,26 @@ func randMode(r *rng, small bool) parser.Mode {
 	return m
 }
 
-// no input class is excluded from the seeded generators (the domainTextLitEx defect that once
-// required it was repaired in /repo 44e42ae)
-func sanitize(src []byte) ([]byte, bool) { return src, false }
+// Dimensions on which the tree is known to fail are covered by deterministic witnesses; seeded
+// inputs are kept out of such a dimension ONLY while its witness still fails (probed on every run),
+// so a repaired tree gets the dimension back without any change here.
+//   go-tuple: `go (` / `defer (` followed by a tuple panics parseCallExpr (tupleExpr.End on a nil embedded Expr)
+var goTupleRE = regexp.MustCompile(`\b(go|defer)(\s*)\(`)
+//   lambda-label: a label, or a goto/break/continue with a label, inside a lambda block `=> { ... }` that is
+//                 not inside a function body (parseLambdaExpr opens no label scope: nil labelScope / empty targetStack)
+var lambdaBlockRE = regexp.MustCompile(`=>(\s*)\{`)
+var excludeGoTuple, excludeLambdaBlock bool
+
+func sanitize(src []byte) ([]byte, bool) {
+	changed := false
+	if excludeGoTuple && goTupleRE.Match(src) {
+		src, changed = goTupleRE.ReplaceAll(src, []byte("${1}${2}f(")), true
+	}
+	if excludeLambdaBlock && lambdaBlockRE.Match(src) {
+		src, changed = lambdaBlockRE.ReplaceAll(src, []byte("=>${1}(")), true
+	}
+	return src, changed
+}
 
 type fcase struct {
 	key, gen, entry string
@@ -617,6 +635,11 @@ var detCrafted = []struct{ name, src string }{
 	{"nest-func-100", strings.Repeat("func(){", 100)},
 	{"unary-500", "x := " + strings.Repeat("-", 500) + "1"},
 	{"lambda-chain", "x := " + strings.Repeat("a => ", 100) + "1"},
+	// known finding: a tuple after go / defer panics parseCallExpr
+	{"go-tuple-1", "go ()"}, {"go-tuple-2", "defer ()"}, {"go-tuple-3", "go (a, b)"}, {"go-paren-ok", "go (f)()"},
+	// known finding: labels in a lambda block outside a function body (no label scope is opened)
+	{"lambda-label-1", "var f = x => { L: y }"}, {"lambda-label-2", "var f = x => { goto L }"}, {"lambda-label-3", "var f = x => { break L }"},
+	{"lambda-label-4", "x => { L: y }"}, {"lambda-label-ok", "f x => { L: y }"}, {"lambda-block-ok", "var f = x => { return x }"},
 	// regression inputs of the repaired domainTextLitEx defect (sub-parser errors were dropped)
 	{"domaintext-args-bad-1", "x := json`> ); foo`"},
 	{"domaintext-args-bad-2", "x := json`> 1, ), ; foo`"},
@@ -632,6 +655,10 @@ func fuzz(args []string) {
 	prefixFiles := fs.Int("prefix-files", 12, "files whose every token-boundary prefix is tried")
 	fs.Parse(args)
 	r := &rng{s: *seed}
+	// probe the known-failing dimensions in-process (a panic here is recovered by runCase)
+	excludeGoTuple = runCase("file", 0, "a.xgo", 0, []byte("go ()")).Outcome != "ok"
+	excludeLambdaBlock = runCase("file", 0, "a.xgo", 0, []byte("var f = x => { L: y }")).Outcome != "ok" ||
+		runCase("file", 0, "a.xgo", 0, []byte("var f = x => { goto L }")).Outcome != "ok"
 	corpus := loadCorpus(*repo)
 	var cases []fcase
 	entryFor := func(rel string) (string, int) {
@@ -876,7 +903,7 @@ func fuzz(args []string) {
 	}
 	doc := map[string]interface{}{
 		"cases": len(cases), "deterministic": ndet, "seeded": len(cases) - ndet, "corpus_files": len(corpus), "prefix_files": np,
-		"distinct_sources": len(distinct), "nontrivial": len(nontrivial), "sanitized": sanitized,
+		"distinct_sources": len(distinct), "nontrivial": len(nontrivial), "sanitized": sanitized, "exclude_go_tuple": excludeGoTuple, "exclude_lambda_block": excludeLambdaBlock,
 		"by_gen": byGen, "by_entry": byEntry, "by_outcome": byOutcome, "by_mode_top": top(byMode, 12), "modes_distinct": len(byMode),
 		"errors_per_case": errHist, "size": sizeHist, "failures": failures, "walk_notes": walkNotes,
 		"exprex_unsorted": exprexUnsorted, "exprex_unsorted_witness_hex": exprexWitness,
